@@ -250,11 +250,11 @@ static void run_ctor(const Src& s, const CtorStep& t) {
   bool lost = false;
   for (size_t i = 0; i < pieces.size() && !lost; ++i) if (!cls_subset(pieces[i], after)) {
     lost = true; CUR_LOST = pieces[i]; TrigIn ti{0, 0, pieces[i], -1, "enclosure:result-loses-points"};
-    viol(site, "enclosure:result-loses-points", trigger_ctor(t.sk, t.cc, pieces[i], after), inj, cellstr(after), "superset of " + cellstr(pieces[i]), witness_outside(pieces[i], after) + " is in the source"); (void)ti;
+    viol(site, "enclosure:result-loses-points", "none", inj, cellstr(after), "superset of " + cellstr(pieces[i]), witness_outside(pieces[i], after) + " is in the source"); (void)ti;
   }
   if (!lost && want >= 0 && after != want) {
     std::string clause = cls_subset(want, after) ? "best:result-not-smallest" : "best:result-loses-points-of-alpha";
-    viol(site, clause, trigger_ctor(t.sk, t.cc, want, after), inj, cellstr(after), cellstr(want), witness_outside(after, want) + " is in the result only");
+    viol(site, clause, "none", inj, cellstr(after), cellstr(want), witness_outside(after, want) + " is in the result only");
   }
   terminal_layer(*r, after, site, inj);
 }
@@ -333,7 +333,7 @@ static int shape_main(int argc, char** argv) {
       const Src& src = SRCS[item - NG];
       std::vector<CtorStep> steps; ctor_steps(src, steps);
       if (sub >= (long long)steps.size()) { sink().line(J().str("t", "error").str("msg", "crash at unknown constructor step").done()); return; }
-      report_violation(DOM() + "::" + DOM() + "(" + SKN[steps[sub].sk] + ")", std::string("crash:") + signame(sig), "none",
+      report_violation(DOM() + "::" + DOM() + "(" + SKN[steps[sub].sk] + ")", std::string("crash:") + signame(sig), trigger_ctor_crash(steps[sub].sk, src.rows, std::string("crash:") + signame(sig)),
                        J().str("shape", SHAPE_NAME).str("source", src.name).str("complexity", CCN[steps[sub].cc]).done(), signame(sig), "normal return");
     }
   };
